@@ -619,3 +619,4 @@ ASSUMPTIONS = ASSUMPTIONS + [
     "np.fft.rfft / irfft / fftshift / np.conj inside ibldsp.waveforms: a spectrum algebra on 1-D real signals (product of spectra = circular convolution, conjugate = circular time reversal, irfft to the original length = the signal, irfft to any other length = fresh unknown reals); only reached by code that correlates through FFTs",
 ]
 LEVEL_TEXT = LEVEL_TEXT + " Round 6: two shifts by k/2 + 2^-21 equal one shift by k + 2^-20 (length 3, tolerance 1e-9) - totals a hair away from a whole number of samples; FFT-based correlation is modelled by the convolution theorem."
+LEVEL_TEXT = LEVEL_TEXT + ' Round 7: per-trace shifts that differ by 2^-20 each reach their own trace (length-3 model, tolerance 1e-9).'
